@@ -79,9 +79,40 @@ def run_neuron(case):
     adaptive = spec["cls"] in factory.ADAPTIVE
     kw = {"adapt": False} if adaptive else {}
     worst, where, nsp = 0.0, None, 0
+    # exact coincidences (case["exact"]): per-sample phases of EXACTLY zero input lasting several steps while other samples
+    # are driven (phases out of step between the samples), optionally the same input for all neurons of a sample (they
+    # fire together and sit at the reset voltage together), optionally per-sample state assignments through the setters
+    # (voltage exactly at rest / reset / threshold, refractory time left) - identical in the batch and in the copies
+    ex = case.get("exact")
+    if ex:
+        import random as _r
+        rnd = _r.Random(case["seed"] + 2)
+        on = []
+        for b in range(B):
+            row, state = [], rnd.random() < 0.6
+            while len(row) < T:
+                row += [state] * rnd.randint(1, 5)
+                state = not state
+            on.append(row[:T])
+        on = torch.tensor(on, dtype=torch.float64)
+        nd = big.voltage.dim() - 1
     for t in range(T):
         x = (torch.rand((B, *spec["shape"]), generator=g) * case.get("scale", 80.0) - 10.0)
         x = (x * 8).round() / 8
+        if ex:
+            if ex.get("uniform"):
+                x = x.reshape(B, -1)[:, :1].reshape((B,) + (1,) * nd).expand_as(x).clone()
+            x = x * on[:, t].reshape((B,) + (1,) * nd)
+            if ex.get("setstate") and rnd.random() < 0.2:
+                pick = torch.tensor([rnd.random() < 0.5 for _ in range(B)])
+                if pick.any():
+                    vals = ex["levels"]
+                    v, r = big.voltage.clone(), big.refrac.clone()
+                    v[pick] = rnd.choice(vals)
+                    r[pick] = rnd.choice([0.0, spec["dt"], 2 * spec["dt"], 2.5 * spec["dt"]])
+                    big.voltage, big.refrac = v, r
+                    for b in range(B):
+                        small[b].voltage, small[b].refrac = v[b:b + 1].clone(), r[b:b + 1].clone()
         sb = big(x, **kw)
         nsp += int(sb.sum())
         for b in range(B):
